@@ -11,6 +11,7 @@ import (
 	"os"
 	"regexp"
 	"sort"
+	"strconv"
 	"strings"
 )
 
@@ -374,7 +375,16 @@ func (v *Verifier) verifyFunc(key string, splitName, splitCase string, splitCond
 		fmt.Fprintf(os.Stderr, "STATS %s %s: %d obligations %v, %d facts, prelude %d bytes, %d fresh, %d returns\n", key, splitCase, len(c.obls), kinds, len(c.facts), len(prelude), c.nfresh, len(rets))
 		return res
 	}
+	fnTimeout := 0
+	for fl := range c.con.Flags {
+		if strings.HasPrefix(fl, "timeout:") {
+			fnTimeout, _ = strconv.Atoi(strings.TrimSpace(strings.TrimPrefix(fl, "timeout:")))
+		}
+	}
 	for _, o := range c.obls {
+		if fnTimeout > 0 && o.Timeout == 0 && o.Expect == "" {
+			o.Timeout = fnTimeout // `timeout N` in the contract: obligations of this function are known to need longer
+		}
 		if c.ieee && o.Expect == "" && o.Timeout == 0 {
 			// IEEE-754 obligations: only cvc5 decides them here (z3 4.8 and 5.1 time out), in about a minute
 			o.Timeout = 240
